@@ -52,6 +52,16 @@ def gen_case(seed: int, tier: str, index: int) -> Dict[str, Any]:
             plan.append({"op": "reset", "t": t0})
             plan.append({"op": "flip", "t": round(t0 + rng.choice([0.05, 0.5, 1.5]), 3), "dev": rng.randrange(6), "on": rng.random() < 0.3, "form": rng.randrange(3)})
             plan.append({"op": "flip", "t": round(t0 + rng.choice([0.1, 0.8, 2.0]), 3), "dev": rng.randrange(6), "on": False, "form": rng.randrange(3)})
+    if kind == "system" and rng.random() < 0.5:
+        # the shipped timing tables (idle: a ping a minute), and a device switched on and off again within one ping round trip: the
+        # second report arrives before the first ping of the freshly installed active table has been answered
+        tables = None
+        dur = max(dur, 150)
+        for _ in range(rng.randint(1, 4)):
+            t0 = round(rng.uniform(5.0, dur - 5), 3)
+            dev, form = rng.randrange(6), rng.randrange(3)
+            plan.append({"op": "flip", "t": t0, "dev": dev, "on": True, "form": form})
+            plan.append({"op": "flip", "t": round(t0 + rng.choice([0.0, 0.01, 0.05, 0.3, 1.0]), 3), "dev": dev, "on": False, "form": form, "same_as_previous": True})
     plan.sort(key=lambda o: (o["t"], o["op"] != "switch"))
     snaps = [s for s in snapshot_files()]
     cfg = {"kind": kind, "net": {"lat_min": 0.001, "lat_max": 0.004}, "loop": loop_cfg, "tables": tables, "duration": dur,
